@@ -101,7 +101,35 @@ pub fn replay_other(prop: &str, v: &serde_json::Value) -> i32 {
             }
         }
         "longgame" => longgame::replay(v),
-        "value" | "c17" | "twin" | "threads" => {
+        "twin" => {
+            let rec0 = match record::GameRecord::from_json(v) {
+                Some(r) => r,
+                None => return 3,
+            };
+            let t = v["transform"].as_str().unwrap_or("mirror");
+            let (mirror, flip) = match t {
+                "mirror" => (true, false),
+                "colour_swap_rank_flip" => (false, true),
+                _ => (true, true),
+            };
+            let mut sink = sink::Sink::new();
+            let mut st = sym::TwinStats { states: [0; 3], captures: 0, withheld_states: 0, terminals: [0; 3] };
+            let mut rec = record::GameRecord::new("replay", 0, 0, rec0.start.clone());
+            let mut rng = rng::Rng::new(0, 0);
+            sym::twin_game(&mut rec, driver::Policy::Replay(rec0.actions.clone()), u32::MAX, mirror, flip, &mut rng, &mut st, &mut sink);
+            println!("replayed {} of {} recorded actions of the twin game under transform {}", rec.actions.len(), rec0.actions.len(), t);
+            for x in &sink.violations {
+                println!("  clause={} {}", x.clause, x.detail);
+            }
+            if sink.violation_count > 0 {
+                println!("VIOLATION property=C11 replay=<this file>");
+                1
+            } else {
+                println!("no violation on this history with the current tree");
+                0
+            }
+        }
+        "value" | "c17" | "threads" => {
             println!("witness kind {:?}: re-run ./check.sh {} (the case is enumerated deterministically by the check itself)", kind, prop);
             3
         }
